@@ -15,7 +15,7 @@
    textbin <codec> 0|1 <tree>          -> hex of the BYTES the model's binary sink receives from TextConverter (error
                                           policy ignore; showpageno 0|1) through the codec state machine | bad-op (codec not modelled)
    xmlbin <codec> s|k <tree>           -> the same for XMLConverter (strict) | encode-error
-   utf32dec <hex>                      -> hex(UTF-8) of `utf32Decode` (the decoder of theorem C11_sink_utf32) | undecodable
+   utf32dec <hex> / utf16dec <hex>     -> hex(UTF-8) of `utf32Decode` / `utf16Decode` (the decoders of C11_sink_utf32 / _utf16) | undecodable
 
    esc.enc <str>  esc.attr s|k <str>  esc.text s|k <str>   -> hex(UTF-8) of the model's utils.enc / XMLConverter.attr / write_text
    esc.unesc <hex utf-8>               -> hex(UTF-8) of `unescAny` (references replaced, nothing else) | bad-reference
@@ -199,6 +199,13 @@ def step (line : String) : String :=
     match bytesOfHex hx with
     | some bs =>
       match utf32Decode bs with
+      | some s => hexOfStr s
+      | none => "undecodable"
+    | none => "bad-op"
+  | "utf16dec" :: hx :: [] =>
+    match bytesOfHex hx with
+    | some bs =>
+      match utf16Decode bs with
       | some s => hexOfStr s
       | none => "undecodable"
     | none => "bad-op"
